@@ -90,7 +90,7 @@ fn run_shard(args: &[String]) -> i32 {
     if let Some(b) = arg_val(args, "--budget") {
         ctx.budget = Duration::from_secs(b.parse().unwrap());
     }
-    if std::env::var_os("VERIF_SLOW_TOOL").is_some() {
+    if std::env::var_os("VERIF_SLOW_TOOL").is_some() || cfg!(miri) || args.iter().any(|a| a == "--slow-tool") {
         ctx.slow_tool = true;
         monitor::set_meter(false);
     }
@@ -112,6 +112,12 @@ fn run_shard(args: &[String]) -> i32 {
     let mut bytes = Vec::with_capacity(hs.len() * 8);
     for h in hs {
         bytes.extend_from_slice(&h.to_le_bytes());
+    }
+    if out == "-" {
+        // tool sub-runs (Miri with isolation on cannot write files): summary on stdout
+        j["distinct_local"] = json!(ctx.hashes.len());
+        println!("VERIF-SHARD-JSON {}", j);
+        return 0;
     }
     std::fs::write(format!("{}.hashes", out), bytes).unwrap();
     std::fs::write(&out, j.to_string()).unwrap();
